@@ -12,6 +12,8 @@ import Driver.XoFam
 import Driver.MutFam
 import Driver.OpsFam
 import Driver.ResFam
+import Driver.GenFam
+import Driver.GenerationFam
 open Driver
 
 def dispatch (stdin stdout : IO.FS.Stream) (line : String) : IO String := do
@@ -26,6 +28,8 @@ def dispatch (stdin stdout : IO.FS.Stream) (line : String) : IO String := do
   | "mut" :: args => MutFam.handle stdin stdout args
   | "ops" :: args => OpsFam.handle stdin stdout args
   | "res" :: args => ResFam.handle stdin stdout args
+  | "gen" :: args => GenFam.handle stdin stdout args
+  | "generation" :: args => GenerationFam.handle stdin stdout args
   | "ping" :: _ => pure "pong"
   | _ => pure "bad-family"
 
